@@ -666,7 +666,7 @@ pub fn run(run: &Run) {
     let workers = run.workers();
     prop_search(
         run,
-        Search { check: "shared-result", cases: run.tier.pick(60_000, 2_000_000), workers, max_shrink_iters: 4000 },
+        Search { check: "shared-result", cases: run.tier.pick(300_000, 4_000_000), workers, max_shrink_iters: 4000 },
         || proptest::collection::vec(prop_oneof![
             3 => (any::<u8>(), any::<u8>()).prop_map(|(k, v)| SrOp::Set(k, v)),
             1 => Just(SrOp::Subscribe),
@@ -684,7 +684,7 @@ pub fn run(run: &Run) {
     );
     prop_search(
         run,
-        Search { check: "bichannel", cases: run.tier.pick(60_000, 2_000_000), workers, max_shrink_iters: 4000 },
+        Search { check: "bichannel", cases: run.tier.pick(300_000, 4_000_000), workers, max_shrink_iters: 4000 },
         || (1usize..4, proptest::collection::vec(prop_oneof![
             5 => (any::<bool>(), any::<u8>()).prop_map(|(a, v)| BcOp::TrySend(a, v)),
             5 => (any::<bool>(), any::<u8>()).prop_map(|(a, k)| BcOp::Recv(a, k)),
@@ -699,7 +699,7 @@ pub fn run(run: &Run) {
     );
     prop_search(
         run,
-        Search { check: "termination", cases: run.tier.pick(280, 4000), workers: 8, max_shrink_iters: 40 },
+        Search { check: "termination", cases: run.tier.pick(1200, 10000), workers: 8, max_shrink_iters: 40 },
         case_strategy,
         |c| judge(|| exec(c), true, "C09:hang"),
         |c| serde_json::to_value(c).unwrap(),
